@@ -3,6 +3,7 @@ C14 — Shocks hit only their target market, in their window, with their magnitu
 (The effect of a fundamental shock on the generated path — only the target's value at that step is
 scaled, earlier values kept, later values continue from the new level — is `Pams.C12.shock_*`.)
 -/
+import PamsLemmas.SourceTie
 import PamsModel.Events
 import PamsProps.C13
 import PamsProps.C15
@@ -101,5 +102,9 @@ theorem nonvacuous :
     [none, none, some (false, 270, 10000, 5), none, none] := by
   simp [mistakeRun, mistakeHook]
   norm_num
+
+/-- (T) `OrderMistakeShock.hooked_before_order` in the current sources: target test `==`, side `> 0` -/
+theorem source_mistake_hook :
+    Pams.Source.opsOf "OrderMistakeShock.hooked_before_order" = ["==", ">"] := by decide
 
 end Pams.C14
